@@ -282,6 +282,14 @@ func (m *dMachine) Next(t *rapid.T) dOp {
 		}
 	})
 	op.Ops = append(op.Ops, rapid.SliceOfN(one, 1, 10).Draw(t, "seq")...)
+	if mod == "service" && p.Service != nil && (p.Service.BaseDenom == "btc" || p.Service.BaseDenom == "eth") && rapid.Bool().Draw(t, "stale") {
+		// objects created under the old base denom (the running repeated context with its fee cap) meet something
+		// expressed in the new one: a provider of that context re-prices its binding, then the next batches fall due
+		op.Ops = append(op.Ops, cOp{M: "svc.updateBinding", W: rapid.IntRange(1, 2).Draw(t, "repricer"), D: "svc0", E: "@base", A: "1000000000000", B: "1", N: 0},
+			cOp{M: "block", N: 6, A: fmt.Sprint(int64(5 * time.Second))})
+	} else if rapid.IntRange(0, 2).Draw(t, "tailblocks") == 0 {
+		op.Ops = append(op.Ops, genBlock(t)) // whatever the operations left behind meets the block hooks under P
+	}
 	if relTarget >= 0 { // aim most HTLT creations at the asset whose limits were edited
 		for i := range op.Ops {
 			if o := &op.Ops[i]; o.M == "htlc.create" && o.F && rapid.IntRange(0, 3).Draw(t, "aim") > 0 {
